@@ -20,6 +20,7 @@ import (
 //	make(chan T, n)                   → vsched.Make[T]("<func>.<var>", n)
 //	go func() { … }()                 → vsched.Go("<func>#<k>", func() { … })      k-th go statement of <func>
 //	go func(p T) { … }(a)             → { _g := a; vsched.Go("<func>#<k>", func() { var p T = _g; … }) }
+//	go f(a)                           → { _g0 := f; _g1 := a; vsched.Go("<func>#<k>", func() { _g0(_g1) }) }
 //	ch <- v                           → ch.Send(v)
 //	<-ch ; v, ok := <-ch              → ch.Recv1() ; v, ok := ch.Recv()
 //	for x := range ch { … }           → for x, ok := ch.Recv(); ok; x, ok = ch.Recv() { … }
@@ -30,7 +31,7 @@ import (
 //	x = … inside a go literal, x declared outside it  → … ; vsched.Write("x")
 //	return … x … (outside go literals, x written by a goroutine) → vsched.Read("x"); return …
 //
-// Anything the rewriter does not know how to map (send cases in select, go on a named function,
+// Anything the rewriter does not know how to map (send cases in select, go on a builtin,
 // range over a channel with `=`) is an error: the check then reports that the correspondence could
 // not be established instead of silently skipping code.
 func (p *Pkg) RewriteTo(outDir string) error {
@@ -275,8 +276,30 @@ func (k *rw) stmt(s ast.Stmt) ast.Stmt {
 		return &ast.ExprStmt{X: method(k.expr(s.Chan), "Send", k.expr(s.Value))}
 	case *ast.GoStmt:
 		fl, ok := s.Call.Fun.(*ast.FuncLit)
-		if !ok || s.Call.Ellipsis.IsValid() || (fl.Type.Results != nil && len(fl.Type.Results.List) > 0) {
-			k.fail(s, "go statement on something other than a function literal without results")
+		if !ok {
+			// go f(a1, …) on a function VALUE: Go evaluates f and the arguments in the spawning goroutine
+			// (an argument that is itself a call runs there, before anything is started):
+			//   { _g0 := f; _g1 := a1; …; vsched.Go(site, func() { _g0(_g1, …) }) }
+			if _, isBuiltin := k.p.Info.Uses[identOf(s.Call.Fun)].(*types.Builtin); isBuiltin {
+				k.fail(s, "go statement on a builtin")
+				return s
+			}
+			var pre []ast.Stmt
+			fv := ast.NewIdent(k.tmp("g"))
+			pre = append(pre, &ast.AssignStmt{Lhs: []ast.Expr{fv}, Tok: token.DEFINE, Rhs: []ast.Expr{k.expr(s.Call.Fun)}})
+			call := &ast.CallExpr{Fun: fv, Ellipsis: s.Call.Ellipsis}
+			for _, a := range s.Call.Args {
+				tmp := ast.NewIdent(k.tmp("g"))
+				pre = append(pre, &ast.AssignStmt{Lhs: []ast.Expr{tmp}, Tok: token.DEFINE, Rhs: []ast.Expr{k.expr(a)}})
+				call.Args = append(call.Args, tmp)
+			}
+			site := k.fn + "#" + strconv.Itoa(k.goCount)
+			k.goCount++
+			lit := &ast.FuncLit{Type: &ast.FuncType{Params: &ast.FieldList{}}, Body: &ast.BlockStmt{List: []ast.Stmt{&ast.ExprStmt{X: call}}}}
+			return &ast.BlockStmt{List: append(pre, &ast.ExprStmt{X: &ast.CallExpr{Fun: vs("Go"), Args: []ast.Expr{strLit(site), lit}}})}
+		}
+		if s.Call.Ellipsis.IsValid() || (fl.Type.Results != nil && len(fl.Type.Results.List) > 0) {
+			k.fail(s, "go statement on a function literal with results or a variadic call")
 			return s
 		}
 		// go func(p1 T1, …){ body }(a1, …)  →  { _g1 := a1; …; vsched.Go(site, func(){ var p1 T1 = _g1; _ = p1; …; body }) }
@@ -376,6 +399,11 @@ func (k *rw) stmt(s ast.Stmt) ast.Stmt {
 	}
 	k.children(s)
 	return s
+}
+
+func identOf(e ast.Expr) *ast.Ident {
+	id, _ := e.(*ast.Ident)
+	return id
 }
 
 func (k *rw) selectStmt(s *ast.SelectStmt) ast.Stmt {
